@@ -42,7 +42,10 @@ VX_FM_OP(frexp_exponent, 1, frexp_exp(a), m_frexp_exp(a), (a == a && !std::isinf
 VX_FM_OP(ldexp, 2, avel::ldexp(un(a), bits_as_int_vector(b)), bits_of(S(std::ldexp(a, clamp_int(int_of_bits(b))))), true, same_bits_nan, (special(a) || special(from_bits<S>(model(a, b, b)))))
 VX_FM_OP(scalbn, 2, avel::scalbn(un(a), bits_as_int_vector(b)), bits_of(S(std::scalbn(a, clamp_int(int_of_bits(b))))), true, same_bits_nan, (special(a) || special(from_bits<S>(model(a, b, b)))))
 VX_FM_OP(ilogb, 1, avel::ilogb(un(a)), int_result_bits<S>(std::ilogb(a)), true, plain_eq, special(a))
-VX_FM_OP(logb, 1, avel::logb(un(a)), bits_of(S(std::logb(a))), true, same_bits_nan, special(a))
+// logb(1.0) is computed as a difference of exponents: +0 in <cmath>; AVEL's vector forms give -0 under FE_DOWNWARD (x - x). The exponent is the number
+// zero either way: bit for bit under the default mode, by value under a directed mode
+template<class S> inline bool logb_same(std::uint64_t e, std::uint64_t g) { return std::fegetround() == FE_TONEAREST ? same_bits_nan<S>(e, g) : same_value_nan<S>(e, g); }
+VX_FM_OP(logb, 1, avel::logb(un(a)), bits_of(S(std::logb(a))), true, logb_same, special(a))
 VX_FM_OP(frac, 1, avel::frac(un(a)), bits_of(S(a - std::trunc(a))), true, same_value_nan, (special(a) || std::trunc(a) == a))
 VX_FM_OP(fmax, 2, avel::fmax(un(a), un(b)), m_fmax(a, b), true, same_value_nan, (a != a || b != b || (a == S(0) && b == S(0))))
 VX_FM_OP(fmin, 2, avel::fmin(un(a), un(b)), m_fmin(a, b), true, same_value_nan, (a != a || b != b || (a == S(0) && b == S(0))))
